@@ -10,6 +10,7 @@ import (
 	"strings"
 	"sync"
 	"time"
+	"unsafe"
 
 	"golang.org/x/tools/go/packages"
 	"golang.org/x/tools/go/ssa"
@@ -51,15 +52,53 @@ type Engine struct {
 
 func (E *Engine) isHarnessPkg(p *ssa.Package) bool { return E.harnessPkg[p] }
 
+// noteFunc / noteIntrinsic are called from the worker goroutines on every call: counters are
+// sharded by a cheap hash of the key to keep lock contention off the interpreter's hot path.
+type noteShard struct {
+	mu    sync.Mutex
+	funcs map[*ssa.Function]int64
+	intr  map[string]int
+}
+
+var noteShards [64]noteShard
+
+func init() {
+	for i := range noteShards {
+		noteShards[i].funcs = map[*ssa.Function]int64{}
+		noteShards[i].intr = map[string]int{}
+	}
+}
+
 func (E *Engine) noteFunc(fn *ssa.Function) {
-	E.mu.Lock()
-	E.funcsSeen[fn]++
-	E.mu.Unlock()
+	sh := &noteShards[(uintptr(unsafe.Pointer(fn))>>6)%64]
+	sh.mu.Lock()
+	sh.funcs[fn]++
+	sh.mu.Unlock()
 }
 func (E *Engine) noteIntrinsic(n string) {
+	sh := &noteShards[(len(n)*31+int(n[len(n)-1]))%64]
+	sh.mu.Lock()
+	sh.intr[n]++
+	sh.mu.Unlock()
+}
+
+// mergeNotes folds the sharded counters into E.funcsSeen / E.intrSeen (call when workers are idle).
+func (E *Engine) mergeNotes() {
 	E.mu.Lock()
-	E.intrSeen[n]++
-	E.mu.Unlock()
+	defer E.mu.Unlock()
+	for i := range noteShards {
+		sh := &noteShards[i]
+		sh.mu.Lock()
+		for f, n := range sh.funcs {
+			E.funcsSeen[f] += n
+		}
+		for k, n := range sh.intr {
+			E.intrSeen[k] += n
+		}
+		sh.funcs = map[*ssa.Function]int64{}
+		sh.intr = map[string]int{}
+		sh.mu.Unlock()
+	}
 }
 func (E *Engine) noteCut(s string) {
 	E.mu.Lock()
@@ -323,6 +362,7 @@ func (E *Engine) RunHarness(spec string) (*HarnessResult, error) {
 		s.Close()
 	}
 	h.results.WallS = time.Since(h.start).Seconds()
+	E.mergeNotes()
 	return &h.results, nil
 }
 
